@@ -750,7 +750,13 @@ fn check_wrappers(ctx: &Ctx, c: &mut Collector) {
         if [l.red.to_bits(), l.green.to_bits(), l.blue.to_bits()] != [want[0].to_bits(), want[1].to_bits(), want[2].to_bits()] {
             c.violation("C05/wrapper/Srgb-u8/into_linear", 1.0, || json!({"sub": "wrapper-u8", "input": [v, 255 - v, v / 2], "observed": [l.red, l.green, l.blue], "expected": want}));
         }
-        let back: Srgb<u8> = Srgb::from_linear(l);
+        let back: Srgb<u8> = match pv::catch(|| Srgb::from_linear(l)) {
+            Ok(b) => b,
+            Err(msg) => {
+                c.violation("C05/wrapper/Srgb-u8/from_linear-panic", 1.0, || json!({"sub": "wrapper-u8", "input": [v, 255 - v, v / 2], "observed": {"panic": msg}, "expected": "no panic"}));
+                Srgb::new(v, 255 - v, v / 2)
+            }
+        };
         if (back.red, back.green, back.blue) != (v, 255 - v, v / 2) {
             c.violation("C05/wrapper/Srgb-u8/from_linear", 1.0, || json!({"sub": "wrapper-u8", "input": [v, 255 - v, v / 2], "observed": [back.red, back.green, back.blue], "expected": [v, 255 - v, v / 2]}));
         }
@@ -759,7 +765,7 @@ fn check_wrappers(ctx: &Ctx, c: &mut Collector) {
         if ll.luma.to_bits() != want[0].to_bits() {
             c.violation("C05/wrapper/SrgbLuma-u8/into_linear", 1.0, || json!({"sub": "wrapper-u8", "input": v, "observed": ll.luma, "expected": want[0]}));
         }
-        let lb: palette::SrgbLuma<u8> = palette::SrgbLuma::from_linear(ll);
+        let lb: palette::SrgbLuma<u8> = pv::catch(|| palette::SrgbLuma::from_linear(ll)).unwrap_or(palette::SrgbLuma::new(v.wrapping_add(1)));
         if lb.luma != v {
             c.violation("C05/wrapper/SrgbLuma-u8/from_linear", 1.0, || json!({"sub": "wrapper-u8", "input": v, "observed": lb.luma, "expected": v}));
         }
@@ -820,12 +826,15 @@ fn replay(c: &mut Collector, rep: &Value) {
 }
 
 fn main() {
-    pv::quiet_panics();
+    pv::main_guard(real_main)
+}
+
+fn real_main() -> i32 {
     let (ctx, mode) = Ctx::from_args("C05");
     if let Mode::Replay(rep) = mode {
         let mut c = Collector::new();
         replay(&mut c, &rep);
-        std::process::exit(ctx.finish_replay(c));
+        return ctx.finish_replay(c);
     }
     let mut total = Collector::new();
     for e in encoders() {
@@ -846,5 +855,5 @@ fn main() {
             "f64 inputs to the integer encoders are explored on every f32-representable double and 51 doubles around every code transition; other doubles round to one of these f32s by the implementation's `as f32`",
         ],
     );
-    std::process::exit(code);
+    code
 }
